@@ -395,7 +395,7 @@ func schedFrames() string {
 	var out []string
 	for _, g := range bytes.Split(buf, []byte("\n\n")) {
 		s := string(g)
-		if strings.Contains(s, "cff/scheduler.worker") || strings.Contains(s, "cff/scheduler.(*Scheduler).run") || strings.Contains(s, "cff/scheduler.Config.New") {
+		if startedByCff(s) {
 			lines := strings.Split(s, "\n")
 			state := lines[0]
 			if i := strings.Index(state, "["); i >= 0 {
@@ -420,6 +420,21 @@ func schedFrames() string {
 	}
 	sort.Strings(out)
 	return strings.Join(out, "\n")
+}
+
+// startedByCff reports whether a goroutine dump entry is a goroutine that code of go.uber.org/cff started
+// (whatever the function is called): its "created by" line names a function of the scheduler or the root
+// package — not of this harness module, whose import path has the same prefix.
+func startedByCff(g string) bool {
+	i := strings.LastIndex(g, "\ncreated by ")
+	if i < 0 {
+		return false
+	}
+	c := g[i+len("\ncreated by "):]
+	if strings.HasPrefix(c, "go.uber.org/cff/verifh") {
+		return false
+	}
+	return strings.HasPrefix(c, "go.uber.org/cff/scheduler.") || strings.HasPrefix(c, "go.uber.org/cff.")
 }
 
 func countSchedGoroutines() int {
@@ -962,7 +977,10 @@ func runCapacity(cc *capacityCase) (fails []string, info string) {
 	maxG := 0
 	for i := 0; i < n; i++ {
 		sched.Enqueue(bg, scheduler.Job{Run: func(context.Context) error {
+			// `arrived` counts the bodies in flight right now (it is decremented on return): the barrier opens
+			// only when n bodies are in flight at the same time, and `peak` is the largest number ever in flight
 			a := atomic.AddInt32(&arrived, 1)
+			defer atomic.AddInt32(&arrived, -1)
 			for {
 				p := atomic.LoadInt32(&peak)
 				if a <= p || atomic.CompareAndSwapInt32(&peak, p, a) {
@@ -1309,6 +1327,112 @@ func runSlowEmitter(n, jobs int, period, emitTakes time.Duration, coe bool) (fai
 	return fails
 }
 
+// exitEmitter exits its goroutine (runtime.Goexit, as t.FailNow does in a test emitter) at its k-th call.
+type exitEmitter struct {
+	n, k int64
+}
+
+func (e *exitEmitter) Emit(scheduler.State) {
+	if atomic.AddInt64(&e.n, 1) == e.k {
+		runtime.Goexit()
+	}
+}
+
+// runExitingEmitter: the state emitter is user code on the loop goroutine; when it exits that goroutine
+// the caller must still get out of Enqueue and Wait (C05), and the scheduler's goroutines must terminate
+// afterwards (C06, checked by the caller of this function).  Nothing is claimed about what Wait returns.
+func runExitingEmitter(n, jobs int, k int64, coe bool) (fails []string) {
+	em := &exitEmitter{k: k}
+	sched := scheduler.Config{Concurrency: n, ContinueOnError: coe, Emitter: em, StateFlushFrequency: time.Millisecond}.New()
+	bg := context.Background()
+	done := make(chan struct{})
+	var stage int32
+	go func() {
+		defer close(done)
+		var prev *scheduler.ScheduledJob
+		for i := 0; i < jobs; i++ {
+			atomic.StoreInt32(&stage, int32(i+1))
+			var deps []*scheduler.ScheduledJob
+			if prev != nil && i%2 == 1 {
+				deps = []*scheduler.ScheduledJob{prev}
+			}
+			prev = sched.Enqueue(bg, scheduler.Job{Dependencies: deps, Run: func(context.Context) error {
+				time.Sleep(3 * time.Millisecond)
+				return nil
+			}})
+		}
+		atomic.StoreInt32(&stage, -1)
+		_ = sched.Wait(bg)
+	}()
+	select {
+	case <-done:
+	case <-time.After(10 * time.Second):
+		atomic.AddInt32(&hangs, 1)
+		where := "Wait"
+		if st := atomic.LoadInt32(&stage); st > 0 {
+			where = fmt.Sprintf("Enqueue %d", st)
+		}
+		fails = append(fails, fmt.Sprintf("the emitter exited the loop goroutine at its call %d (N=%d, coe=%v, %d jobs): the caller is still in %s after 10s", k, n, coe, jobs, where))
+	}
+	return fails
+}
+
+// runDeadlineCtx: contexts that carry a deadline (context.WithTimeout) which expires while task functions
+// that ignore their context are still running; the functions return later.  Wait must return (C05) and,
+// once the functions have returned, no goroutine started by the scheduler may remain (C06, checked by the
+// caller).  shared: one deadline context for every Enqueue and for Wait (what generated code does);
+// otherwise one per job and a live context for Wait.
+func runDeadlineCtx(n, jobs int, coe, shared bool) (fails []string) {
+	sched := scheduler.Config{Concurrency: n, ContinueOnError: coe}.New()
+	bg := context.Background()
+	var cancels []context.CancelFunc
+	defer func() {
+		for _, c := range cancels {
+			c()
+		}
+	}()
+	mk := func() context.Context {
+		ctx, cancel := context.WithTimeout(bg, 5*time.Millisecond)
+		cancels = append(cancels, cancel)
+		return ctx
+	}
+	waitCtx := bg
+	var sharedCtx context.Context
+	if shared {
+		sharedCtx = mk()
+		waitCtx = sharedCtx
+	}
+	var running int32
+	done := make(chan struct{})
+	go func() {
+		defer close(done)
+		for i := 0; i < jobs; i++ {
+			ctx := sharedCtx
+			if !shared {
+				ctx = mk()
+			}
+			sched.Enqueue(ctx, scheduler.Job{Run: func(context.Context) error {
+				atomic.AddInt32(&running, 1)
+				defer atomic.AddInt32(&running, -1)
+				time.Sleep(25 * time.Millisecond) // outlasts the deadline, ignores the context
+				return nil
+			}})
+		}
+		_ = sched.Wait(waitCtx)
+	}()
+	select {
+	case <-done:
+	case <-time.After(10 * time.Second):
+		atomic.AddInt32(&hangs, 1)
+		fails = append(fails, fmt.Sprintf("deadline contexts (N=%d, coe=%v, shared=%v): Wait did not return within 10s", n, coe, shared))
+	}
+	// the functions that had been started have returned (a function that starts later still counts)
+	for i := 0; i < 400 && atomic.LoadInt32(&running) > 0; i++ {
+		time.Sleep(5 * time.Millisecond)
+	}
+	return fails
+}
+
 // ---------------------------------------------------------------- main
 
 func parseScenario(lines []string) (*scenario, error) {
@@ -1542,6 +1666,53 @@ func main() {
 				}
 				stats["slowemitter"]++
 			}
+			// an emitter that exits the loop goroutine (the emitter is user code, too)
+			for i, c := range []struct {
+				n, jobs int
+				k       int64
+				coe     bool
+			}{{2, 12, 2, false}, {1, 8, 1, true}, {3, 20, 5, true}} {
+				if atomic.LoadInt32(&hangs) >= 3 {
+					break
+				}
+				fails := runExitingEmitter(c.n, c.jobs, c.k, c.coe)
+				fmt.Fprintf(w, "cap %d exitemitter N=%d jobs=%d k=%d capseed=%d capcount=%d\n", 400000+i, c.n, c.jobs, c.k, *seed, *capacity)
+				if len(fails) == 0 {
+					fmt.Fprintf(w, "O C05 ok\n")
+				} else {
+					fmt.Fprintf(w, "O C05 FAIL %s\n", strings.Join(fails, " ;; "))
+					stats["fail.C05"]++
+				}
+				if l, d := waitQuiescent(baseG); l > 0 {
+					fmt.Fprintf(w, "O C06 FAIL exiting emitter case %d: %d scheduler goroutine(s) never terminate: %s\n", 400000+i, l, strings.ReplaceAll(d, "\n", " | "))
+					stats["fail.C06"]++
+					baseG = countSchedGoroutines()
+				}
+				stats["exitemitter"]++
+			}
+			// deadline contexts expiring while functions that ignore them are running
+			for i, c := range []struct {
+				n, jobs     int
+				coe, shared bool
+			}{{2, 6, false, true}, {2, 6, true, false}, {1, 4, true, true}, {3, 9, false, false}} {
+				if atomic.LoadInt32(&hangs) >= 3 {
+					break
+				}
+				fails := runDeadlineCtx(c.n, c.jobs, c.coe, c.shared)
+				fmt.Fprintf(w, "cap %d deadlinectx N=%d jobs=%d coe=%v shared=%v capseed=%d capcount=%d\n", 500000+i, c.n, c.jobs, c.coe, c.shared, *seed, *capacity)
+				if len(fails) == 0 {
+					fmt.Fprintf(w, "O C05 ok\n")
+				} else {
+					fmt.Fprintf(w, "O C05 FAIL %s\n", strings.Join(fails, " ;; "))
+					stats["fail.C05"]++
+				}
+				if l, d := waitQuiescent(baseG); l > 0 {
+					fmt.Fprintf(w, "O C06 FAIL deadline-context case %d: %d goroutine(s) started by the scheduler never terminate: %s\n", 500000+i, l, strings.ReplaceAll(d, "\n", " | "))
+					stats["fail.C06"]++
+					baseG = countSchedGoroutines()
+				}
+				stats["deadlinectx"]++
+			}
 		}
 		if *capacity > 0 {
 			fans := []int{1<<16 + 1000}
@@ -1579,6 +1750,29 @@ func main() {
 				baseG = countSchedGoroutines()
 			}
 			stats["capacity"]++
+		}
+		// The default limit is max(GOMAXPROCS, 4) whatever the number of CPUs: the same capacity cases with
+		// the default limit and GOMAXPROCS above runtime.NumCPU() (as under a CPU quota or an explicit setting).
+		if *capacity > 0 && atomic.LoadInt32(&hangs) < 3 {
+			old := runtime.GOMAXPROCS(runtime.NumCPU() + 5)
+			for i, kills := range [][]string{nil, {"goexit", "goexit", "fail"}} {
+				cc := &capacityCase{Idx: 900000 + i, N: 0, Kills: kills, Extra: 10 * i}
+				fails, info := runCapacity(cc)
+				fmt.Fprintf(w, "cap %d %s gomaxprocs=%d numcpu=%d kills=%s capseed=%d capcount=%d\n", cc.Idx, info, runtime.GOMAXPROCS(0), runtime.NumCPU(), strings.Join(cc.Kills, ","), *seed, *capacity)
+				if len(fails) == 0 {
+					fmt.Fprintf(w, "O C03 ok\n")
+				} else {
+					fmt.Fprintf(w, "O C03 FAIL default limit with GOMAXPROCS=%d on %d CPUs: %s\n", runtime.GOMAXPROCS(0), runtime.NumCPU(), strings.Join(fails, " ;; "))
+					stats["fail.C03"]++
+				}
+				if l, d := waitQuiescent(baseG); l > 0 {
+					fmt.Fprintf(w, "O C06 FAIL capacity case %d: %d scheduler goroutine(s) never terminate: %s\n", cc.Idx, l, strings.ReplaceAll(d, "\n", " | "))
+					stats["fail.C06"]++
+					baseG = countSchedGoroutines()
+				}
+				stats["capacity"]++
+			}
+			runtime.GOMAXPROCS(old)
 		}
 	}
 
